@@ -245,6 +245,31 @@ func c16r2(c *core.Ctx) {
 				}
 			}
 		}
+		// the same by exploration (covers a loop run by a flag:  for more := true; more; { ...; more = err != io.ErrUnexpectedEOF } ):
+		// once the read reported anything but nil, the walk does not come back to the read
+		if !cont {
+			again := false
+			rb := readCall.Block()
+			iff, _ := rb.Instrs[len(rb.Instrs)-1].(*ssa.If)
+			for idx, succ := range rb.Succs {
+				if iff != nil {
+					t, fl := core.EvalFact(iff.Cond, errNil)
+					if (idx == 0 && t) || (idx == 1 && fl) {
+						continue
+					}
+				}
+				core.Explore(succ, core.PredIndex(rb, idx), errNil, func(b *ssa.BasicBlock) bool {
+					if b == rb {
+						again = true
+						return false
+					}
+					return !again
+				})
+			}
+			if !again {
+				cont = true
+			}
+		}
 	} else if !byOffset { // with the offset idiom a short copy means the next offset is past the end: the loop condition ends it
 		cont = false
 	}
